@@ -2973,6 +2973,20 @@ func (d *Document) parseSectionProperties(decoder *xml.Decoder, startElement xml
 				if err := d.skipElement(decoder, t.Name.Local); err != nil {
 					return nil, err
 				}
+			case "titlePg":
+				// 首页不同
+				if val := getAttributeValue(t.Attr, "val"); val != "0" && val != "false" && val != "off" {
+					sectPr.TitlePage = &TitlePage{}
+				}
+				if err := d.skipElement(decoder, t.Name.Local); err != nil {
+					return nil, err
+				}
+			case "pgNumType":
+				// 页码格式
+				sectPr.PageNumType = &PageNumType{Fmt: getAttributeValue(t.Attr, "fmt")}
+				if err := d.skipElement(decoder, t.Name.Local); err != nil {
+					return nil, err
+				}
 			default:
 				// 跳过其他节属性
 				if err := d.skipElement(decoder, t.Name.Local); err != nil {
